@@ -13,7 +13,7 @@ structure Inv (s : St) : Prop where
 
 theorem topicCount_eq (s : St) (t : Nat) : topicCount s t = cntOf s.topics t := rfl
 
-theorem inv_init (l : Nat) : Inv (init l) := by
+theorem inv_init (l : Int) : Inv (init l) := by
   constructor <;> simp [init, AMap.keys, AMap.get, cntOf, sumOver]
 
 theorem cntOf_cleanLoop (m tp : AMap Nat) (hn : m.keys.Nodup) (t : Nat) :
